@@ -203,20 +203,17 @@ func runConformanceUnit(u Unit) UnitResult {
 		if !ok {
 			panic(InfraError{"no expected report recorded for conformance scenario " + sc.name})
 		}
-		if mock != want {
-			// Both the mock (ours) and prunner.go (production) produce this report. The expected reports were recorded from
-			// the repaired tree and read against the property statements; a deviation with the mock driving the real
-			// prunner.go is examined by the model-checking units under their own oracles, so here it only means that the
-			// comparison below has lost its reference: not a verdict.
-			if real != want {
-				panic(InfraError{fmt.Sprintf("MOCK-CONFORMANCE scenario %q: neither the mock nor the real task runner ends in the recorded report.\nexpected: %s\nmock: %s\nreal: %s", sc.name, want, mock, real)})
-			}
-			continue
-		}
-		if real != want {
-			// the mock agrees with the recorded protocol, the real taskctl.TaskRunner (production code) does not
+		switch {
+		case mock == real:
+			// the two runners agree: that is conformance. (If both differ from the recorded report, production code they
+			// share - prunner.go, the scheduler - behaves differently; whether that breaks a property is for the
+			// model-checking units to say, under their own oracles.)
+		case mock == want:
+			// the mock follows the recorded protocol, the real taskctl.TaskRunner (production code) does not
 			res.Viol = append(res.Viol, FoundViolation{Scenario: "realrunner/" + sc.name, Violation: Violation{Property: "*", Rule: "real-runner-protocol", Norm: "real-runner-protocol:" + sc.name,
 				Msg: fmt.Sprintf("scenario %q run with the real taskctl.TaskRunner and real processes ends in a different report than the notification protocol the model-checking units assume (and the mock runner follows):\nexpected: %s\nreal:     %s", sc.name, want, real)}})
+		default:
+			panic(InfraError{fmt.Sprintf("MOCK-CONFORMANCE scenario %q: the mock task runner and the real taskctl.TaskRunner end in different reports and the mock is not the one that matches the recorded report - the model-checking units would decide about a runner that does not behave like the real one.\nrecorded: %s\nmock:     %s\nreal:     %s", sc.name, want, mock, real)})
 		}
 		if len(res.Samples) < 2 {
 			res.Samples = append(res.Samples, sc.name+": "+strings.ReplaceAll(mock, "\n", " | "))
